@@ -6,6 +6,8 @@ PLAN = {
     'C05': ['harness.c04_roundtrip'],
     'C06': ['harness.c06_decoder'],
     'C08': ['harness.c08_validators'],
+    'C18': ['harness.c18_paths', 'harness.c18_emit'],
+    'C19': ['harness.c19_filter'],
 }
 
 NEEDS_FIXTURES = {
